@@ -126,6 +126,29 @@ impl Oracle<'_> {
                 other => self.out.oracle("C04", "reads-past-length", &format!("DEC {h} -> {d} but with different bytes beyond messageLength: {:?}", other)),
             }
         }
+        // the encoder owns every octet it reports as written: a buffer that held other data before (the ports reuse
+        // one packet buffer for all their messages) must give the same frame as a zeroed one
+        if let Ok((rb0, _)) = &re {
+            for fill in [0xffu8, 0xa5] {
+                let mut dirty = vec![fill; 70_000];
+                match guarded(|| hook::decode_reencode_into(b, &mut dirty)) {
+                    Ok(Ok((n, _))) => {
+                        // octets and bits IEEE 1588 leaves reserved are outside the property ("reserved bits aside")
+                        let mask = spec13::defined_mask(b[0] & 0x0f, n);
+                        let differs = |i: usize| (dirty[i] ^ rb0[i]) & mask.get(i).copied().unwrap_or(0xff) != 0;
+                        if n != rb0.len() || (0..n).any(differs) {
+                            let first = (0..n.min(rb0.len())).find(|&i| differs(i)).unwrap_or(0);
+                            self.out.oracle("C04", "encoding-depends-on-buffer-contents", &format!("DEC {h} -> re-encoded into a buffer pre-filled with {fill:#04x}: octet {first} is {:#04x}, into a zeroed buffer {:#04x}", dirty[first], rb0.get(first).copied().unwrap_or(0)));
+                            break;
+                        }
+                    }
+                    other => {
+                        self.out.oracle("C04", "encoding-depends-on-buffer-contents", &format!("DEC {h} -> re-encoding into a pre-filled buffer: {:?}", other.map(|r| r.map(|x| x.0))));
+                        break;
+                    }
+                }
+            }
+        }
         // re-encoding
         match re {
             Ok((rb, ws)) => {
